@@ -63,6 +63,14 @@ type appSpec struct {
 	RootEp   bool   `json:"root_ep"`            // also registers GET "/"
 	ViaGroup bool   `json:"via_group"`          // mounted through parent.Group(first).Use(rest, sub)
 	CfgCopy  bool   `json:"cfg_copy,omitempty"` // hExplicitDefault through fiber.New(other.Config())
+	// Spelling of a mount performed from a group (ViaGroup && GrpSet):
+	// parent.Group(GrpPrefix[, middleware]).Use([GrpMount,] sub). GrpPrefix joined with GrpMount
+	// is Rel up to redundant slashes ("" / "/" / "/g" / "/g/" with "" / "/" / "/m" / none).
+	GrpSet        bool   `json:"grp_set,omitempty"`
+	GrpPrefix     string `json:"grp_prefix,omitempty"`
+	GrpMount      string `json:"grp_mount,omitempty"`
+	GrpMountGiven bool   `json:"grp_mount_given,omitempty"` // false: .Use(sub) without a prefix argument
+	GrpMw         bool   `json:"grp_mw,omitempty"`          // the group carries a pass-through middleware
 }
 
 // extraMount mounts the app instance App a second time: into Parent under Rel. Early: right
@@ -467,11 +475,25 @@ func build(ts *treeSpec, rec *recorder) *fiber.App {
 		}()
 		a := &ts.Apps[c]
 		if a.ViaGroup {
-			if k := strings.Index(a.Rel[1:], "/"); k >= 0 {
-				apps[p].Group(a.Rel[:k+1]).Use(a.Rel[k+1:], apps[c])
-				return
+			gp, mp, given, mw := a.GrpPrefix, a.GrpMount, a.GrpMountGiven, a.GrpMw
+			if !a.GrpSet {
+				// default split: first segment on the group, the rest on the mount
+				gp, mp, given, mw = "/", a.Rel, true, false
+				if k := strings.Index(a.Rel[1:], "/"); k >= 0 {
+					gp, mp = a.Rel[:k+1], a.Rel[k+1:]
+				}
 			}
-			apps[p].Group("/").Use(a.Rel, apps[c])
+			var g fiber.Router
+			if mw {
+				g = apps[p].Group(gp, func(c fiber.Ctx) error { return c.Next() })
+			} else {
+				g = apps[p].Group(gp)
+			}
+			if given {
+				g.Use(mp, apps[c])
+			} else {
+				g.Use(apps[c])
+			}
 			return
 		}
 		apps[p].Use(a.Rel, apps[c])
@@ -608,7 +630,59 @@ func genTree(r *gen.Rand) *treeSpec {
 	pickStart(ts)
 	addExtraMounts(ts)
 	markExplicitDefault(ts)
+	pickGroupForms(ts)
 	return ts
+}
+
+// pickGroupForms lets more mounts be performed from groups, in every spelling of group prefix
+// and mount prefix that yields the same full mount path (own generator, post-pass): group
+// prefixes "", "/", "/g", "/g/"; mount prefixes none, "", "/", "/m"; with and without a group
+// middleware. Also for sub-apps mounted at "/".
+func pickGroupForms(ts *treeSpec) {
+	cr := gen.New(gen.Hash64("group-forms", ts.describe()))
+	for i := 1; i < len(ts.Apps); i++ {
+		a := &ts.Apps[i]
+		switch {
+		case a.ViaGroup:
+			if cr.Bool() {
+				continue // keep the default split
+			}
+		case a.Rel == "/":
+			if !cr.Bool() {
+				continue
+			}
+		default:
+			if !cr.Chance(1, 8) {
+				continue
+			}
+		}
+		var segs []string
+		if a.Rel != "/" {
+			segs = strings.Split(a.Rel[1:], "/")
+		}
+		k := cr.Intn(len(segs) + 1)
+		a.ViaGroup, a.GrpSet, a.GrpMw = true, true, cr.Bool()
+		if k == 0 {
+			a.GrpPrefix = gen.Pick(cr, []string{"", "/"})
+		} else {
+			a.GrpPrefix = "/" + strings.Join(segs[:k], "/")
+			if cr.Chance(1, 4) {
+				a.GrpPrefix += "/"
+			}
+		}
+		if k < len(segs) {
+			a.GrpMount, a.GrpMountGiven = "/"+strings.Join(segs[k:], "/"), true
+		} else {
+			switch cr.Intn(3) {
+			case 0:
+				a.GrpMount, a.GrpMountGiven = "", false
+			case 1:
+				a.GrpMount, a.GrpMountGiven = "", true
+			default:
+				a.GrpMount, a.GrpMountGiven = "/", true
+			}
+		}
+	}
 }
 
 // addExtraMounts mounts, in a fifth of the trees, one or two app instances a second time:
